@@ -94,6 +94,20 @@ def md_pad(H, msg, prefix_len):
     return out + [BitVecVal(b, 8) for b in lb]
 
 
+def same_bytes(got, exp):
+    """True iff the two byte lists are equal for all values, decided without the solver: syntactically after simplification, else by
+    the exact XOR / extract / concat / uninterpreted-function normal form of vlib/asmx/engine.py (NotLinear -> undecided -> False)"""
+    from vlib.asmx.engine import xor_normal_form, NotLinear
+    todo = [(g, e) for g, e in zip(got, exp) if not is_true(simplify(g == e))]
+    if not todo:
+        return True
+    try:
+        nf = xor_normal_form([x for p_ in todo for x in p_])
+        return all(nf[2 * i] == nf[2 * i + 1] for i in range(len(todo)))
+    except (NotLinear, RecursionError):
+        return False
+
+
 def raw_secret(term, memo=None):
     """does the term contain a message / ipad / opad byte that did not pass through the compression function?"""
     memo = {} if memo is None else memo
@@ -366,8 +380,7 @@ def run_scenario(ctx, variant, h, lengths, script=None, taglens=None, hoff=0, sa
                     inner_bytes.append(simplify(Extract(8 * k + 7, 8 * k, stt)))
             got = [R['tag%d' % i].get(k) for k in range(taglens[i])]
             t1 = time.time()
-            diff = [g for g, e in zip(got, exp) if not is_true(simplify(g == e))]
-            if not diff:
+            if same_bytes(got, exp):
                 r = unsat
             else:
                 r, m = E.check(f, Or(*[g != e for g, e in zip(got, exp)]))
